@@ -1,5 +1,5 @@
 (* non-vacuity: concrete runs that meet the hypotheses of the theorems above *)
-Definition ex_c10_env (fault : nat -> c10_fact) (ck : c10_checks) : c10_env := mk_env 8 fault None 2 ck.
+Definition ex_c10_env (fault : nat -> c10_fact) (ck : c10_checks) : c10_env := mk_env 8 fault None 2 ck 0 None.
 Definition ex_c10_scen := ScWrite 1 [[37; 80; 68; 70]%N; [45; 49; 10]%N; [1; 2; 3; 4; 5; 6; 7; 8; 9; 10; 11; 12; 13; 14; 15; 16; 17; 18; 19; 20]%N].
 (* no fault: exit 0, complete file (both check vectors) *)
 Example ex_c10_nofault : rs_exit (c10_run (ex_c10_env c10_no_fault c10_repaired) false false ex_c10_scen []) = Some 0
